@@ -91,3 +91,149 @@ def optval(x, y):
 
 def lookup(i):
     return (64, 128, 192, 254)[i]
+
+
+import errno
+import os
+
+
+class Chip(object):
+    SOF = bytearray.fromhex('0000FF')
+    ACK = bytearray(b'\x00\x00\xFF\x00\xFF\x00')
+
+    def frame_check(self, frame):
+        with self.lock:
+            if not frame.startswith(self.SOF):
+                raise IOError(errno.EIO, os.strerror(errno.EIO))
+            if frame == Chip.ACK:
+                return 0
+            del frame[0:3]
+            if sum(frame) & 0xFF != 0:
+                raise IOError(errno.ETIMEDOUT, "x")
+            n = struct.unpack("<L", memoryview(frame[0:4]))[0]
+            del frame[1:]
+            return n + len(frame)
+
+    def counters(self, acks, flag):
+        if flag is True:
+            self.acks_recvd += acks
+        else:
+            self.acks_recvd -= 1
+        try:
+            self.total = self.acks_recvd * 2
+        except ValueError:
+            raise
+        return None
+
+    def deep(self, x):
+        if x > 0:
+            for i in range(3):
+                y = x + i
+                z = (bool(y & 1) << 3) | (y > 2) | (int(x > 1) + True)
+                if z > 100:
+                    raise IOError(errno.ENODEV, "no")
+        return x
+
+
+class Opt(object):
+    @property
+    def miu(self):
+        return self._miux + 128 if self._miux is not None else 128
+
+    @miu.setter
+    def miu(self, value):
+        self._miux = max(value - 128, 0)
+
+    def maybe(self, data):
+        if len(data) < 2:
+            return None
+        if data[0] == 0:
+            return
+        return data[1]
+
+    def fits(self, size, limit):
+        ok = limit is not None and size - 2 > limit
+        did = data_pop(size) if size > 3 else None
+        return (ok, did)
+
+    def popper(self, data, flag):
+        did = data.pop(0) if flag else None
+        nad = data.pop(0) if len(data) > 1 else None
+        return (did, nad, data)
+
+    def logidx(self, rsp):
+        log.debug("got {0} {1}".format(rsp[1], len(rsp)))
+        self.notify_all()
+        strerr = self.ERR.get(rsp[0], "x")
+        if rsp[0] == 1:
+            raise ProtocolError(rsp[2], strerr)
+        if rsp[0] == 2:
+            raise Chip.Error(rsp[1], strerr)
+        try:
+            x = rsp[3]
+        except IndexError as error:
+            raise error
+        return x + self.cfg['send-miu'] + len(self.queue)
+
+
+def data_pop(n):
+    return n + 1
+
+
+class ProtocolError(Exception):
+    pass
+
+
+import logging
+log = logging.getLogger("toy")
+Chip.Error = type("Error", (IOError,), {})
+
+
+def lastvar(rw_bits, k):
+    for nmaxb in range(14):
+        if rw_bits >> (nmaxb + 1) & 1 == 0:
+            break
+    for j in range(2, 5):
+        k += j
+    return nmaxb * 100 + j + 2 ** (k & 7) + 2 ** rw_bits
+
+
+def orval(opt, value, data):
+    a = ((opt or 0) & 0b11111100) | (value & 0b00000011)
+    b = (value or 7) + (value and 5)
+    c = data or b"\x01"
+    return (a, b, c, bool(value) or bool(a))
+
+
+class Base(object):
+    @classmethod
+    def code_of(cls, data):
+        if not data.startswith(cls.PDU_CODE):
+            return None
+        return data[len(cls.PDU_CODE):]
+
+    def enumer(self, data, br):
+        acc = 0
+        for index, octet in enumerate(data):
+            acc += index * octet
+        k = (106, 212, 424).index(br)
+        return (acc, k, bytearray.fromhex("00ff"))
+
+    def tl(self, data):
+        if len(data) < 1:
+            return (0, -1, None)
+        return (data[0], len(data), data[1:])
+
+
+class Sub(Base):
+    PDU_CODE = bytearray(b'\xD4\x08')
+
+
+def typed(cause):
+    if cause is None:
+        return 0
+    elif type(cause) is int:
+        data_pop(cause)
+        return cause
+    else:
+        return len(cause)
